@@ -137,6 +137,11 @@ func (os *ObjectStream) parseHeader() error {
 	}
 
 	headerData := os.decoded[:os.first]
+	// Each of the N header pairs needs at least four bytes ("1 0 "), so N is
+	// bounded by the header size; this keeps a bogus /N from sizing the table.
+	if os.n > len(headerData)/4+1 {
+		return fmt.Errorf("object count /N (%d) does not fit in a %d byte header", os.n, len(headerData))
+	}
 	parser := NewParser(bytes.NewReader(headerData))
 
 	os.offsets = make([]objectStreamOffset, 0, os.n)
@@ -201,10 +206,10 @@ func (os *ObjectStream) GetObjectByIndex(index int) (Object, int, error) {
 		endOffset = len(os.decoded)
 	}
 
-	if offset >= len(os.decoded) {
-		return nil, 0, fmt.Errorf("object offset %d exceeds decoded data length %d", offset, len(os.decoded))
+	if offset < 0 || offset >= len(os.decoded) {
+		return nil, 0, fmt.Errorf("object offset %d outside decoded data of length %d", offset, len(os.decoded))
 	}
-	if endOffset > len(os.decoded) {
+	if endOffset > len(os.decoded) || endOffset < offset {
 		endOffset = len(os.decoded)
 	}
 
